@@ -328,7 +328,7 @@ def run_program(binary, cases, timeout_per_case=20, env=None):
         inp = "".join(c.text() for c in todo)
         try:
             p = subprocess.run([binary], input=inp, stdout=subprocess.PIPE, stderr=subprocess.PIPE,
-                               text=True, env=e, timeout=60 + timeout_per_case * 2 + len(todo) * 0.05,
+                               text=True, env=e, timeout=120 + timeout_per_case * 2 + len(todo) * 0.05 + sum(len(c.ops) for c in todo) * 0.003,
                                errors="replace")
             out, err, rc = p.stdout, p.stderr, p.returncode
         except subprocess.TimeoutExpired as te:
@@ -468,7 +468,9 @@ def shrink(case, harness_bin, driver_bin, budget=80, keep_prefix=0):
         c = Case(case.cid, ops)
         a = run_program(harness_bin, [c]).get(c.cid, [])
         b = run_program(driver_bin, [c]).get(c.cid, [])
-        return compare_case(a, b) is not None
+        d = compare_case(a, b)
+        # an operation that lost the set-up it depends on is answered `bad-op`: not a smaller failing case
+        return d is not None and "bad-op" not in d["impl"] and "bad-op" not in d["model"]
     ops = list(case.ops)
     # cut everything after the first differing op
     steps = 0
